@@ -536,15 +536,15 @@ def encodings(weights, scale, perm_seed):
     out = []
     if integral:
         counts = [int(v) for v in weights]
-        sel = [i for i in range(n) for _ in range(counts[i])]
-        multiset = max(counts) > 1
-        rs = numpy.random.RandomState(perm_seed)
-        if len(sel) <= n:     # a subset decision vector cannot be longer than the candidate list
-            out.append(("Subset", "multiset" if multiset else "set", numpy.array(sel, dtype="int64")))
-        if 1 < len(sel) <= n:
-            out.append(("Subset", ("multiset" if multiset else "set") + "-perm", numpy.array(sel, dtype="int64")[rs.permutation(len(sel))]))
-            out.append(("Subset", ("multiset" if multiset else "set") + "-rev", numpy.array(sel[::-1], dtype="int64")))
-        if not multiset:
+        if max(counts) <= 1:
+            # a subset decision consists of DISTINCT members of the candidate set; contributions with a
+            # count > 1 have no subset (and no binary) encoding -- only the integer and real ones
+            sel = [i for i in range(n) if counts[i]]
+            rs = numpy.random.RandomState(perm_seed)
+            out.append(("Subset", "set", numpy.array(sel, dtype="int64")))
+            if len(sel) > 1:
+                out.append(("Subset", "set-perm", numpy.array(sel, dtype="int64")[rs.permutation(len(sel))]))
+                out.append(("Subset", "set-rev", numpy.array(sel[::-1], dtype="int64")))
             out.append(("Binary", "int", numpy.array(counts, dtype="int64")))
             out.append(("Binary", "bool", numpy.array(counts, dtype=bool)))
             out.append(("Binary", "float", numpy.array(counts, dtype=float)))
@@ -570,14 +570,11 @@ def check_enc(case):
     fails = []
     probs = {}
     maxc = int(max(3 * max(weights), 1)) * 7
-    k = int(sum(weights)) if all(float(v).is_integer() for v in weights) else 1
-    k = min(k, n)
+    k = max(1, sum(1 for v in weights if v))        # size of the subset decision (distinct members)
     for enc in ENCS:
         probs[enc] = build_problem(fam, enc, d, k, case.get("ev"), maxcount=maxc)
     first = None
-    encs_ = encodings(weights, case["scale"], case["seed"] + 17)
-    encs_ = [e for e in encs_ if not e[1].startswith("multiset")] + [e for e in encs_ if e[1].startswith("multiset")]
-    for enc, label, x in encs_:
+    for enc, label, x in encodings(weights, case["scale"], case["seed"] + 17):
         prob, book, l = probs[enc]
         tag = "%s/%s[%s]" % (fam, enc, label)
         x0 = x.copy()
@@ -586,23 +583,20 @@ def check_enc(case):
             lat = prob.latentfn(x)
             lat2 = prob.latentfn(x)
         lat = numpy.asarray(lat)
-        suffix = ""
-        if label.startswith("multiset"):
-            suffix = "-subset-multiset"       # repeated members: own finding class
         if lat.ndim != 1 or lat.shape[0] != len(exp):
-            fails.append(("latent-shape" + suffix, "%s latent shape %r, definition has %d entries" % (tag, lat.shape, len(exp))))
+            fails.append(("latent-shape", "%s latent shape %r, definition has %d entries" % (tag, lat.shape, len(exp))))
             continue
         if not _close(lat, exp):
-            fails.append(("latent-definition:%s%s" % (fam, suffix), "%s x=%r latent=%r, definition gives %r" % (tag, x.tolist(), lat.tolist(), exp)))
-        if first is None and not suffix:
-            first = (tag, lat)              # reference: the first encoding without repeated subset members
-        elif first is not None and not _close(lat, first[1].tolist()):
-            fails.append(("encodings-disagree:%s%s" % (fam, suffix), "%s latent=%r but %s latent=%r" % (tag, lat.tolist(), first[0], first[1].tolist())))
+            fails.append(("latent-definition:%s" % fam, "%s x=%r latent=%r, definition gives %r" % (tag, x.tolist(), lat.tolist(), exp)))
+        if first is None:
+            first = (tag, lat)
+        elif not _close(lat, first[1].tolist()):
+            fails.append(("encodings-disagree:%s" % fam, "%s latent=%r but %s latent=%r" % (tag, lat.tolist(), first[0], first[1].tolist())))
         if not _exact(numpy.asarray(lat2), lat) and not (numpy.isnan(lat).any()):
             fails.append(("latent-not-repeatable", "%s second call gives %r, first %r" % (tag, numpy.asarray(lat2).tolist(), lat.tolist())))
         if not _exact(x, x0):
             fails.append(("latent-mutates-x", "%s decision vector changed to %r" % (tag, x.tolist())))
-        if label in ("set", "multiset", "int", "int64", "raw", "scaled", "bool"):
+        if label in ("set", "int", "int64", "raw", "scaled", "bool"):
             check_evalfn(prob, book, x, lat, fails, tag)
     if case.get("tiny"):
         # contributions whose sum lies below the libraries' 1e-10 guard: own finding class
@@ -610,7 +604,7 @@ def check_enc(case):
                  for c, m in fails]
     # _evaluate on a few rows (only for same-shape decision vectors of one encoding)
     for enc in ("Subset", "Real"):
-        rows = [x for e, lab, x in encodings(weights, case["scale"], case["seed"] + 17) if e == enc and not lab.startswith("multiset")]
+        rows = [x for e, lab, x in encodings(weights, case["scale"], case["seed"] + 17) if e == enc]
         if rows:
             with warnings.catch_warnings():
                 warnings.simplefilter("ignore")
@@ -1596,26 +1590,52 @@ def check_wgebvmat(case):
     return fails
 
 
+def _dh_gametes(hap0, hap1, rnd, xoprob):
+    """one doubled-haploid gamete per row of `rnd`, by the meiosis contract: start on the first
+    chromosome copy and switch copies at every locus j whose draw is below xoprob[j]"""
+    out = []
+    for r in rnd:
+        phase, g = 0, []
+        for j in range(len(xoprob)):
+            if r[j] < xoprob[j]:
+                phase = 1 - phase
+            g.append(hap1[j] if phase else hap0[j])
+        out.append(g)
+    return out
+
+
 def check_embvmat(case):
-    """for a completely homozygous taxon every doubled-haploid progeny equals the taxon, so its expected
-    maximum breeding value is its own genomic breeding value, whatever is drawn"""
+    """expected maximum breeding value of a taxon = mean over its nrep replicates of the best genomic breeding
+    value among its nprogeny doubled-haploid progeny.  (i) a completely homozygous taxon only has progeny equal
+    to itself, so its value is its own breeding value whatever nrep/nprogeny/draws are; (ii) for every taxon the
+    value is replayed from the definition with a twin of the library's generator (same state, same draw order:
+    taxon by taxon, replicate by replicate, one uniform block of nprogeny x loci per replicate)."""
     from pybrops.model.embvmat.DenseExpectedMaximumBreedingValueMatrix import DenseExpectedMaximumBreedingValueMatrix as E
     from pybrops.core.random import prng
     seed, n, t = case["seed"], case["n"], case["t"]
-    pop = make_pop(seed, n, case.get("p", 6), t, "inbred")
-    # one heterozygous taxon with recombination switched off: its progeny are copies of one of its two gametes
     het = case.get("het", False)
-    if het:
+    het = {False: "none", True: "one"}.get(het, het)            # 'none' | 'one' | 'all'
+    pop = make_pop(seed, n, case.get("p", 6), t, "random" if het == "all" else "inbred")
+    if het == "one":
+        # one heterozygous taxon with recombination switched off: its progeny are copies of one of its two gametes
         pop["ph"][1, 0, :] = 1 - pop["ph"][0, 0, :]
         pop["xoprob"][1:] = 0.0
     g, algmod = pop_objects(pop, True)
+
+    def per_taxon(v):
+        return [int(z) for z in v] if isinstance(v, (list, tuple)) else [int(v)] * n
+    nprog_l, nrep_l = per_taxon(case.get("nprogeny", 3)), per_taxon(case.get("nrep", 2))
+    if len(nprog_l) != n or len(nrep_l) != n:
+        return "skip"
+
+    def arg(v, lst):
+        if isinstance(v, (list, tuple)) or case.get("arrays"):
+            return numpy.array(lst, dtype="int64")               # the documented per-taxon array form
+        return int(v)
     prng.seed(seed)
-    nprog = case.get("nprogeny", 3)
-    nrep = case.get("nrep", 2)
-    if case.get("arrays"):
-        nprog = numpy.repeat(nprog, n)
-        nrep = numpy.repeat(nrep, n)
-    out = E.from_gmod(gmod=algmod, pgmat=g, nprogeny=nprog, nrep=nrep)
+    twin = numpy.random.RandomState()
+    twin.set_state(numpy.random.get_state())                     # twin of the library's global generator
+    out = E.from_gmod(gmod=algmod, pgmat=g, nprogeny=arg(case.get("nprogeny", 3), nprog_l), nrep=arg(case.get("nrep", 2), nrep_l))
     raw = numpy.asarray(out.unscale())
     gebv = pop_gebv(pop)
     fails = []
@@ -1623,16 +1643,37 @@ def check_embvmat(case):
         return [("embvmat-shape", "shape %r" % (raw.shape,))]
     if not (_exact(out.taxa, numpy.array(pop["names"], dtype=object)) and _exact(out.taxa_grp, pop["grp"])):
         fails.append(("embvmat-taxa-order", "taxa %r, population %r" % (list(out.taxa), pop["names"])))
+    ph, u, p = pop["ph"].tolist(), pop["u"].tolist(), pop["p"]
+    xo = pop["xoprob"].tolist()
+    b0 = [float(v) for v in pop["beta0"]]
+    replay = []
     for i in range(n):
-        if het and i == 0:
-            u = pop["u"].tolist()
-            gam = [[float(pop["beta0"][tt]) + sum(2 * int(pop["ph"][m][0][l]) * u[l][tt] for l in range(pop["p"])) for tt in range(t)] for m in range(2)]
+        acc = [0.0] * t
+        for _ in range(nrep_l[i]):
+            rnd = twin.uniform(0, 1, (nprog_l[i], p)).tolist()
+            best = [None] * t
+            for gam in _dh_gametes(ph[0][i], ph[1][i], rnd, xo):
+                for tt in range(t):
+                    v = b0[tt] + sum(2 * gam[l] * u[l][tt] for l in range(p))
+                    if best[tt] is None or v > best[tt]:
+                        best[tt] = v
+            for tt in range(t):
+                acc[tt] += best[tt]
+        replay.append([a / nrep_l[i] for a in acc])
+    for i in range(n):
+        homo = ph[0][i] == ph[1][i]
+        if homo and not _close(raw[i], gebv[i], 1e-9):
+            fails.append(("embvmat-value", "homozygous taxon %d (%s, nrep=%d, nprogeny=%d): expected maximum BV %r, its own breeding value %r"
+                          % (i, pop["names"][i], nrep_l[i], nprog_l[i], raw[i].tolist(), gebv[i])))
+        if not _close(raw[i], replay[i], 1e-9):
+            fails.append(("embvmat-replay", "taxon %d (%s, nrep=%d, nprogeny=%d): expected maximum BV %r, mean over replicates of the best progeny value "
+                          "replayed with the twin generator %r (nrep=%r nprogeny=%r)" % (i, pop["names"][i], nrep_l[i], nprog_l[i], raw[i].tolist(), replay[i], nrep_l, nprog_l)))
+        if het == "one" and i == 0:
+            gam = [[b0[tt] + sum(2 * ph[m][0][l] * u[l][tt] for l in range(p)) for tt in range(t)] for m in range(2)]
             for tt in range(t):
                 lo, hi = min(gam[0][tt], gam[1][tt]), max(gam[0][tt], gam[1][tt])
                 if not (lo - 1e-9 * (1 + abs(lo)) <= raw[i][tt] <= hi + 1e-9 * (1 + abs(hi))):
                     fails.append(("embvmat-value", "heterozygous taxon 0 trait %d: %r outside [%r, %r] spanned by its two doubled gametes" % (tt, raw[i][tt], lo, hi)))
-        elif not _close(raw[i], gebv[i], 1e-8):
-            fails.append(("embvmat-value", "homozygous taxon %d (%s): expected maximum BV %r, its own breeding value %r" % (i, pop["names"][i], raw[i].tolist(), gebv[i])))
     return fails
 
 
@@ -1648,7 +1689,7 @@ def check_ev(case):
         k = len(case["sel"])
     else:
         weights = case["weights"]
-        cand = [(e, lab, x) for e, lab, x in encodings(weights, case.get("scale", 2.0), case["seed"] + 17) if e == enc and not lab.startswith("multiset")]
+        cand = [(e, lab, x) for e, lab, x in encodings(weights, case.get("scale", 2.0), case["seed"] + 17) if e == enc]
         if not cand:
             return "skip"
         xs = [x for _, _, x in cand]
@@ -1813,7 +1854,7 @@ def _rand_weights(rng, n):
         return [1 if i in chosen else 0 for i in range(n)]
     if mode == "counts":
         w = [rng.choice([0, 0, 1, 2, 3]) for _ in range(n)]
-    elif mode == "counts-small":           # repeated members but still no longer than the candidate list
+    elif mode == "counts-small":           # small integer counts (integer / real encodings only when a count exceeds 1)
         w = [0] * n
         for _ in range(rng.randint(1, n)):
             w[rng.randrange(n)] += 1
@@ -1962,9 +2003,25 @@ def gen_fac_x(rng, tier):
                        unique=rng.random() < 0.5, nrep=nrep, nmating=rng.choice([1, 2]), nprogeny=rng.choice([1, 4]))
         # the only shape on which the replicate loop cannot go wrong: one cross, one replicate
         yield dict(kind="fac-embv", seed=rng.randrange(10 ** 6), n=2, t=2, nparent=2, unique=True, nrep=1)
-        for het in (False, True):
+        for het in ("none", "one", "all"):
+            # (a) scalar nrep / nprogeny (also handed over as constant per-taxon arrays)
             yield dict(kind="embvmat", seed=rng.randrange(10 ** 6), n=rng.choice([1, 3, 4]), t=rng.choice([1, 2]), het=het, arrays=rng.random() < 0.5,
                        nprogeny=rng.choice([1, 4]), nrep=rng.choice([1, 3]))
+            # (b) per-taxon arrays with unequal entries, entries of 1 included, in increasing / decreasing / mixed order
+            for form in ("both", "nrep", "nprogeny"):
+                n_ = rng.choice([2, 3, 4, 5])
+                def uneq(pool):
+                    v = [rng.choice(pool) for _ in range(n_)]
+                    v[rng.randrange(n_)] = 1
+                    j = rng.randrange(n_)
+                    v[j] = max(pool) if v[j] == 1 and n_ > 1 and all(z == 1 for z in v) else v[j]
+                    if len(set(v)) == 1:
+                        v[0] = max(pool) if v[0] != max(pool) else min(pool)
+                    order = rng.choice(["up", "down", "mixed"])
+                    return sorted(v) if order == "up" else sorted(v, reverse=True) if order == "down" else v
+                yield dict(kind="embvmat", seed=rng.randrange(10 ** 6), n=n_, t=rng.choice([1, 2]), het=het, p=rng.choice([3, 6]),
+                           nprogeny=uneq([1, 2, 3, 5]) if form != "nrep" else rng.choice([1, 3]),
+                           nrep=uneq([1, 2, 3, 4]) if form != "nprogeny" else rng.choice([1, 2]))
     # more than 1024 crosses: the chunked computation of the optimal haploid values (45*46/2 = 1035)
     yield dict(kind="fac-ohv", fam="ohv", seed=rng.randrange(10 ** 6), n=45, t=1, p=5, nparent=2, unique=False, nhaploblk=2, nchr=1)
     if tier == "thorough":
@@ -1990,7 +2047,7 @@ U_FX = "ring[factories hold population data in taxon order: UC OHV OPV EMBV cros
 @unit(P, U_ENC_A, "R", bounded=True,
       note="bounded: n<=8 candidates/crosses, t<=3 traits, counts<=18, seeded random data incl. ties/zeros/1e8 magnitudes; 206 (quick) / 2506 (thorough) cases per criterion")
 def u_ring_enc_a(ctx):
-    ctx.rule = ("per criterion: seeded data, a contribution vector (subset, repeated members, integer counts, real shares, one, all, below/above the 1e-10 guard); "
+    ctx.rule = ("per criterion: seeded data, a contribution vector (subset of distinct members, integer counts > 1 for the integer/real encodings, real shares, one, all, below/above the 1e-10 guard); "
                 "every encoding of it is evaluated on the real class and compared with the definition computed by loops; distinct by data seed + contributions")
     _drive(ctx, gen_enc(ctx.rng, ctx.tier, ("ebv", "gebv", "wgs", "gwgebv", "random", "uc", "ohv", "embv")))
 
@@ -2037,10 +2094,11 @@ def u_ring_faf(ctx):
     _drive(ctx, gen_fac_af(ctx.rng, ctx.tier))
 
 
-@unit(P, U_FX, "R", bounded=True, note="bounded: n<=5 taxa (one case 45 taxa = 1035 crosses), <=10 loci, <=4 blocks, nparent<=3; 15 (quick) / 150 (thorough) rounds of 24 cases")
+@unit(P, U_FX, "R", bounded=True, note="bounded: n<=5 taxa (one case 45 taxa = 1035 crosses), <=10 loci, <=4 blocks, nparent<=3; 15 (quick) / 150 (thorough) rounds of 34 cases")
 def u_ring_fx(ctx):
     ctx.rule = ("cross map = lexicographic parent combinations; UC through a stub variance factory with a known asymmetric variance array and through the real "
-                "two-way DH factory; OHV/OPV from block values computed by loops; EMBV with a deterministic stand-in mating protocol")
+                "two-way DH factory; OHV/OPV from block values computed by loops; EMBV with a deterministic stand-in mating protocol; EMBV matrix from_gmod with scalar and unequal per-taxon nrep/nprogeny arrays, "
+                "homozygous taxa = own GEBV, every taxon replayed from the definition with a twin of the global generator")
     _drive(ctx, gen_fac_x(ctx.rng, ctx.tier))
 
 
